@@ -1,0 +1,78 @@
+//go:build verif
+
+/*
+Add-only hook for the /verif machinery (property C11). Compiled only with `-tags verif`;
+without the tag this file does not exist for the compiler.
+*/
+
+package sql
+
+import (
+	"context"
+	"fmt"
+)
+
+// VerifScanPlan is what genScanSpecs + keyReaderSpecFrom decide for a single-table SELECT.
+type VerifScanPlan struct {
+	IndexID  uint32
+	SeekKey  []byte // KeyReaderSpec.SeekKey (loKey when ascending, hiKey when descending)
+	EndKey   []byte // KeyReaderSpec.EndKey
+	Desc     bool
+	SortRows bool // an explicit sortRowReader is stacked (orderBySortExps non-empty)
+}
+
+// VerifPlanOf parses one SELECT statement and returns the physical scan the engine would use
+// for it inside tx (nil tx: a fresh read-only transaction). Nothing is executed.
+func VerifPlanOf(ctx context.Context, e *Engine, tx *SQLTx, sql string) (*VerifScanPlan, error) {
+	stmts, err := ParseSQLString(sql)
+	if err != nil {
+		return nil, err
+	}
+	if len(stmts) != 1 {
+		return nil, fmt.Errorf("verif: expected one statement")
+	}
+	sel, ok := stmts[0].(*SelectStmt)
+	if !ok {
+		return nil, fmt.Errorf("verif: not a SELECT")
+	}
+	tref, ok := sel.ds.(*tableRef)
+	if !ok {
+		return nil, fmt.Errorf("verif: not a table scan")
+	}
+
+	if tx == nil {
+		tx, err = e.NewTx(ctx, DefaultTxOptions().WithReadOnly(true))
+		if err != nil {
+			return nil, err
+		}
+		defer tx.Cancel()
+	}
+
+	sel.resolveOrderByAliases()
+
+	specs, err := sel.genScanSpecs(tx, nil)
+	if err != nil {
+		return nil, err
+	}
+	if specs.Index == nil {
+		return nil, fmt.Errorf("verif: no index in scan specs")
+	}
+
+	table, err := tref.referencedTable(tx)
+	if err != nil {
+		return nil, err
+	}
+
+	rspec, err := keyReaderSpecFrom(e.prefix, table, specs)
+	if err != nil {
+		return nil, err
+	}
+
+	return &VerifScanPlan{
+		IndexID:  specs.Index.id,
+		SeekKey:  rspec.SeekKey,
+		EndKey:   rspec.EndKey,
+		Desc:     rspec.DescOrder,
+		SortRows: len(specs.orderBySortExps) > 0,
+	}, nil
+}
